@@ -530,11 +530,6 @@ pub fn explore(ctx: &LeafCtx, tier: &str, reps: &[&Report; 5]) {
                 .map(|d1| {
                     let o = cx.run(&inputs, &[*d1], &[], true);
                     let mut cnt = 0u64;
-                    if matches!(o.verdict, Verdict::Reject(crate::cx::Reject::GeneratorConflict { .. }) | Verdict::Reject(crate::cx::Reject::InputConflict(_))) {
-                        // the first deviation already conflicts with a copy constraint: every
-                        // extension of it conflicts at the same point
-                        return 0;
-                    }
                     for (g2, &m) in o.menus.iter().enumerate() {
                         if g2 <= d1.gen {
                             continue;
